@@ -266,6 +266,23 @@ def fold_aliases(fn, known_locals, stable_attrs, receiver_names=("self", "cls", 
             continue
         is_alias = isinstance(v, ast.Attribute) and isinstance(v.value, ast.Name) and v.value.id in receiver_names \
             and v.value.id in params and v.attr in stable_attrs
+        if not is_alias and isinstance(v, ast.Attribute):
+            # self.<stable field>.<attr>[.<attr>...]: a bound method / attribute of an object the receiver holds for its whole life
+            chain = v
+            while isinstance(chain, ast.Attribute) and isinstance(chain.value, ast.Attribute):
+                chain = chain.value
+            is_alias = isinstance(chain, ast.Attribute) and isinstance(chain.value, ast.Name) and chain.value.id in receiver_names \
+                and chain.value.id in params and chain.attr in stable_attrs and chain is not v
+        if not is_alias and isinstance(v, ast.Attribute):
+            # <local or module name>.<attr>: a bound method of a local that is bound once (`add = items.append`) or an attribute of a
+            # module-level name (`dumpable = brine.dumpable`)
+            base = v
+            while isinstance(base, ast.Attribute):
+                base = base.value
+            if isinstance(base, ast.Name) and base.id not in receiver_names and base.id not in params and \
+                    len(stores.get(base.id, [])) <= 1 and all(
+                        getattr(x, "lineno", 0) < st.lineno for x in stores.get(base.id, [])):
+                is_alias = True
         if not is_alias and not (isinstance(v, (ast.Compare, ast.BoolOp, ast.UnaryOp, ast.Subscript)) and
                                  _hoistable(v, stores, params, stable_attrs, receiver_names)):
             continue
